@@ -67,6 +67,8 @@ def run(c):
     seen = set()
     for m in mism:
         v = m["vec"]
+        if m["why"].startswith("DRIVER:"):
+            raise Broken(m["why"])
         key = "sig:%s:%s" % (case_key(v), m["why"][:40])
         if key in seen:
             continue
